@@ -41,9 +41,17 @@ def flags(classes):
     return f
 
 
+def _files(name, text):
+    """name/text are either one source, or tuples of names and texts (several files in one invocation)."""
+    if isinstance(name, (tuple, list)):
+        return dict(zip(name, text)), list(name)
+    return {name: text}, [name]
+
+
 def reference(binfo, scratch, name, text, classes):
     w = scratch.new()
-    r = worlds.compile_world(binfo, w, {name: text}, flags(classes), [name], cpu=60)
+    files, srcs = _files(name, text)
+    r = worlds.compile_world(binfo, w, files, flags(classes), srcs, cpu=60)
     vsim.cleanup_world(w)
     return r
 
@@ -111,7 +119,7 @@ def plan_lines(plan):
         elif ev["k"] == "dirtarget":
             pass
         else:
-            out.append("fs %s %s %d" % (ev["k"], ev["c"], ev["a"]))
+            out.append("fs %s %s %d" % (ev["k"], ev["c"], ev["a"]) + (" file %d" % ev["nth"] if ev.get("nth") else ""))
     return out
 
 
@@ -125,7 +133,8 @@ def run_plan(binfo, scratch, name, text, classes, plan, ref):
         def pre(sb):
             for rel in targets:
                 os.makedirs(os.path.join(sb, rel), exist_ok=True)
-    r = worlds.compile_world(binfo, w, {name: text}, flags(classes), [name],
+    files, srcs = _files(name, text)
+    r = worlds.compile_world(binfo, w, files, flags(classes), srcs,
                              plan_extra=plan_lines(plan), cpu=60, pre=pre)
     vsim.cleanup_world(w)
     return r
@@ -181,7 +190,7 @@ def main(argv):
     with vsim.Scratch("c18") as scratch:
         if replay:
             rp = json.load(open(replay))
-            text = rp["source"].encode("latin-1")
+            text = rp["source"].encode("latin-1") if isinstance(rp["source"], str) else [x.encode("latin-1") for x in rp["source"]]
             ref = reference(binfo, scratch, rp["name"], text, rp["classes"])
             r = run_plan(binfo, scratch, rp["name"], text, rp["classes"], rp["plan"], ref)
             v, d, fired = judge(rp["plan"], r, ref)
@@ -208,16 +217,40 @@ def main(argv):
             got = set(worlds.cls_of(k) for k in r2.files)
             if r2.rc == 0 and "h" in got:
                 progs.append((name, text, r2, split))
+        # third configuration: two files in one invocation, the fault aimed at the SECOND file's output
+        multi_cl = ["ao", "fm", "c", "lsp"]
+        singles = [p for p in progs if p[3] is classes]
+        multi_ix = []
+        for k in range(0, min(len(singles) - 1, 2 if tier == "quick" else 10), 1):
+            a, b = singles[k], singles[k + 1]
+            nm, tx = (a[0], b[0]), (a[1], b[1])
+            r3 = reference(binfo, scratch, nm, tx, multi_cl)
+            if r3.rc == 0:
+                progs.append((nm, tx, r3, multi_cl))
+                multi_ix.append(len(progs) - 1)
         cases = []
         for pi, (name, text, ref, cl) in enumerate(progs):
-            rng = vsim.Rng(seed, "c18-plans", name, "+".join(cl))
+            rng = vsim.Rng(seed, "c18-plans", name if isinstance(name, str) else "+".join(name), "+".join(cl))
+            if pi in multi_ix:
+                second = name[1][:-3]
+                sizes2 = dict((worlds.cls_of(k), len(v)) for k, v in ref.files.items() if os.path.basename(k).startswith(second))
+                for c in cl:
+                    S = sizes2.get(c, 0)
+                    if S <= 0:
+                        continue
+                    for ev in ({"k": "enospc", "c": c, "a": rng.range(0, S - 1), "nth": 2}, {"k": "eio", "c": c, "a": 1, "nth": 2},
+                               {"k": "closefail", "c": c, "a": 28, "nth": 2}, {"k": "openfail", "c": c, "a": 13, "nth": 2},
+                               {"k": "enospc", "c": c, "a": rng.range(0, S - 1), "nth": 1}):
+                        cases.append((pi, [ev]))
+                cases.append((pi, []))
+                continue
             for plan in gen_plans(rng, ref, cl, tier):
                 cases.append((pi, plan))
         # regression corpus: minimised plans of defects found earlier (fixed in /repo)
         import glob
         for f in sorted(glob.glob(os.path.join(vsim.VERIF, "findings", "C18-*", "*.json"))):
             rp = json.load(open(f))
-            if rp.get("classes") != classes:
+            if rp.get("classes") != classes or not isinstance(rp["source"], str):
                 continue
             text = rp["source"].encode("latin-1")
             ref = reference(binfo, scratch, rp["name"], text, classes)
@@ -270,7 +303,7 @@ def main(argv):
                 out.known.append({"key": key, "text": "%s (%d plans this run)" % (text, len(ids))})
                 continue
             # smallest plan, smallest program first; minimise the plan's events
-            ids.sort(key=lambda i: (len(cases[i][1]), len(progs[cases[i][0]][1])))
+            ids.sort(key=lambda i: (len(cases[i][1]), len(progs[cases[i][0]][1]) if isinstance(progs[cases[i][0]][1], bytes) else 10 ** 6))
             i = ids[0]
             pi, plan = cases[i]
             name, src, ref, pcl = progs[pi]
@@ -288,7 +321,8 @@ def main(argv):
             rr = run_plan(binfo, scratch, name, src, pcl, mplan, ref)
             v2, d2, _ = judge(mplan, rr, ref)
             rp = vsim.write_replay(PID, "seed%d-p%d" % (seed, i), {
-                "property": PID, "seed": seed, "name": name, "source": src.decode("latin-1"), "classes": pcl,
+                "property": PID, "seed": seed, "name": name,
+                "source": src.decode("latin-1") if isinstance(src, bytes) else [x.decode("latin-1") for x in src], "classes": pcl,
                 "plan": mplan, "verdict": v2, "detail": d2, "key": key, "source_key": binfo["key"],
                 "fs_history": [" ".join(e) for e in vsim.parse_log(rr.log)["fs"]][:80],
                 "other_failing_plans": len(ids) - 1})
@@ -300,7 +334,7 @@ def main(argv):
             "distinct_nontrivial": len(distinct),
             "rule": "fault plans enumerated per program and output class (ENOSPC at boundary/seeded byte budgets, EIO at a write, failure only at close, failing open, directory in the way, failing mkdir, seeded subsets) plus the fault-free plan; non-trivial = a fault actually fired (F lines of the event log) ; distinct = distinct (program, plan, event-log hash)",
             "samples": [{"program": progs[cases[i][0]][0], "plan": cases[i][1]} for i in range(0, done, max(1, done // 4))][:5],
-            "programs": len(progs), "program_names": ["%s[%s]" % (p[0], "+".join(p[3])) if len(p[3]) < 5 else p[0] for p in progs], "programs_skipped_not_compiling": skipped,
+            "programs": len(progs), "program_names": ["%s[%s]" % (p[0] if isinstance(p[0], str) else "+".join(p[0]), "+".join(p[3])) if len(p[3]) < 5 else p[0] for p in progs], "programs_skipped_not_compiling": skipped,
             "output_classes": classes + ["h (with -Csmax=5, second configuration)"],
             "plans_planned": len(cases), "plans_run": done,
             "faults_configured": configured, "faults_fired": fired_n,
